@@ -466,36 +466,37 @@ fn strip_original(d: &str) -> String {
 }
 
 fn layers_accept(case: &Case, v: &BoxSubj, l: &mut Local) {
-    if case.entry == Entry::Bstr {
-        return;
-    }
     l.count("layers.checked_accept");
     // decode: from_slice(b) == from_cbor_value(parse(b))
-    match subject::parse_value(case.bytes) {
-        Outcome::Ok((val, used)) if used == case.bytes.len() => {
-            let val = match case.entry {
-                Entry::Tagged => match val {
-                    coset::cbor::value::Value::Tag(t, inner) if Some(t) == subject::registered_tag(case.ty) => *inner,
-                    other => {
-                        l.viol(case.viol("layers", "tagged-accept-without-tag", "Tag(TAG, ..)".into(), format!("{:?}", other)));
-                        return;
+    // (the bstr entry point *is* the value-level API applied to parse(b); only the encode
+    // direction remains to be compared for it)
+    if case.entry != Entry::Bstr {
+        match subject::parse_value(case.bytes) {
+            Outcome::Ok((val, used)) if used == case.bytes.len() => {
+                let val = match case.entry {
+                    Entry::Tagged => match val {
+                        coset::cbor::value::Value::Tag(t, inner) if Some(t) == subject::registered_tag(case.ty) => *inner,
+                        other => {
+                            l.viol(case.viol("layers", "tagged-accept-without-tag", "Tag(TAG, ..)".into(), format!("{:?}", other)));
+                            return;
+                        }
+                    },
+                    _ => val,
+                };
+                match subject::decode_value(case.ty, val) {
+                    Outcome::Ok(v2) => {
+                        if v2.debug() != v.debug() {
+                            l.viol(case.viol("layers", "decode-differs", v.debug(), v2.debug()));
+                        }
                     }
-                },
-                _ => val,
-            };
-            match subject::decode_value(case.ty, val) {
-                Outcome::Ok(v2) => {
-                    if v2.debug() != v.debug() {
-                        l.viol(case.viol("layers", "decode-differs", v.debug(), v2.debug()));
-                    }
+                    o => l.viol(case.viol("layers", "value-api-rejects", "Ok".into(), o.brief())),
                 }
-                o => l.viol(case.viol("layers", "value-api-rejects", "Ok".into(), o.brief())),
             }
+            o => l.viol(case.viol("layers", "parse-disagrees", "one complete item".into(), match o {
+                Outcome::Ok((_, used)) => format!("item of {} bytes in input of {}", used, case.bytes.len()),
+                o => o.brief(),
+            })),
         }
-        o => l.viol(case.viol("layers", "parse-disagrees", "one complete item".into(), match o {
-            Outcome::Ok((_, used)) => format!("item of {} bytes in input of {}", used, case.bytes.len()),
-            o => o.brief(),
-        })),
     }
     // encode: to_vec(v) == serialise(to_cbor_value(v))
     match (v.to_vec(), v.to_value()) {
